@@ -417,6 +417,12 @@ static int mmd3_load(struct module_data *m, HIO_HANDLE *f, const int start)
 		block.lines = hio_read16b(f);
 		hio_read32b(f); /* FIXME: should try to load extra command pages when they exist. */
 
+		/* the header was validated in the first pass; a stream that
+		 * now ends early must not enlarge the block */
+		if (block.numtracks > mod->chn || block.lines + 1 > max_lines) {
+			D_(D_CRIT "block %d changed size", i);
+			goto err_cleanup;
+		}
 		size = block.numtracks * (block.lines + 1) * 4;
 		if (hio_read(patbuf, 1, size, f) < size) {
 			D_(D_CRIT "read error in block %d", i);
